@@ -644,6 +644,10 @@ pub fn fold_case((t, a, b, sa, sb, form): &(usize, Vec<usize>, Vec<usize>, bool,
 }
 
 fn main() {
+    kvh::on_thread(real_main);
+}
+
+fn real_main() {
     let args = kvh::parse_args("C16", "c16");
     let mut ctx = Ctx::new(args.clone(), RULE);
     if let Some(p) = &args.replay {
